@@ -1,11 +1,17 @@
 use crate::report::Report;
 use crate::Ctx;
 
+pub mod c10;
+pub mod c11;
 pub mod c20;
+pub mod probe;
 
 pub fn run(engine: &str, ctx: &Ctx) -> Option<Report> {
     let mut rep = Report::new(engine);
     match engine {
+        "c10" => c10::run(ctx, &mut rep),
+        "c11" => c11::run(ctx, &mut rep),
+        "probe" => probe::run(ctx, &mut rep),
         "c20" => c20::run(ctx, &mut rep),
         _ => return None,
     }
